@@ -960,7 +960,12 @@ fn handle(st: &mut St, line: &str) -> Result<String, String> {
                     let b2 = dir.join("lmdb.bak").exists();
                     Ok(format!("ok bak={}{}", b1 as u8, b2 as u8))
                 }
-                Err(_) => Ok("err".into()),
+                Err(e) => {
+                    if std::env::var("WORKER_DEBUG").is_ok() {
+                        eprintln!("rebuild error: {}", e);
+                    }
+                    Ok("err".into())
+                }
             }
         }
         "RMD" => {
